@@ -1,4 +1,6 @@
 import TieC.ContProofs
+import TieC.SelectProofs
+import DsProofs.Properties.C12
 import DsProofs.Properties.C19
 /-!
 # TIEC — the in-place edits of the provenance container with an integer index AS THEY ARE WRITTEN NOW (`GenC/Container.lean`, template translation by
@@ -25,6 +27,15 @@ theorem TIEC_insert (p : P) (i : Int) (e : Expr) :
 
 theorem TIEC_delitem (p : P) (i : Int) :
     GenC.delitem_int (toA4 p) i = ((delItem p i).map toA4).mapError Err.name := delitem_eq p i
+
+/-- `Provenance.fork(sizes)` as written (template): the stored array with row `i` repeated `sizes[i]` times — the model's `fork` (`C12_fork`: for every assignment the
+presence mask with each entry repeated accordingly) -/
+theorem TIEC_fork (p : P) (sizes : List ℕ) :
+    GenC.fork_rows (toA4 p) (sizes.map (fun k : ℕ => (k : Int))) = toA4 (Prov.fork p sizes) := fork_eq p sizes
+
+/-- `Provenance.__getitem__` with a list / array of row positions as written (template; a FRESH array — the F20 clause): the model's `select` (`C12_select`) -/
+theorem TIEC_getitem (p : P) (idx : List ℕ) (h : ∀ i ∈ idx, i < p.data.length) :
+    GenC.getitem_rows (toA4 p) (idx.map (fun k : ℕ => (k : Int))) = .ok (toA4 (Prov.select p idx)) := getitem_eq p idx h
 
 /-! ### non-vacuity: a 2-row container of width (1,1); assign a 2-disjunct formula at -1, insert at -1, delete out of range -/
 def ex : Np.A4 Int := ⟨2, 1, 1, [[[[0, 1]]], [[[1, 1]]]]⟩
